@@ -144,6 +144,7 @@ pub struct NodeSetup {
     pub rr: Option<RrSetup>,
     pub notif: Option<NotifSetup>,
     pub kad: Option<KadSetup>,
+    pub bitswap: bool,
     pub ping: bool,
     /// interval of the ping protocol (default 5 s)
     pub ping_interval: Option<Duration>,
@@ -195,6 +196,43 @@ pub enum ProbeCmd {
     ForceClose(PeerId),
     /// return from `run`: the protocol shuts down
     Exit,
+    /// open a substream and, once it is open, write these chunks raw (no framing added), `gap_ms` apart, keep it for
+    /// `hold_ms` reading whatever comes, then drop it
+    RawOpen { peer: PeerId, chunks: Vec<Vec<u8>>, gap_ms: u16, hold_ms: u16 },
+    /// what to do with inbound substreams from now on: `None` = hold them (default); `Some` = optionally read first, write
+    /// the chunks raw, hold for `hold_ms`, drop
+    SetReply(Option<RawReply>),
+}
+
+#[derive(Clone, Debug)]
+pub struct RawReply {
+    pub read_first: bool,
+    pub chunks: Vec<Vec<u8>>,
+    pub hold_ms: u16,
+}
+
+async fn raw_session(mut substream: litep2p::substream::Substream, read_first: bool, chunks: Vec<Vec<u8>>, gap_ms: u16, hold_ms: u16) {
+    use tokio::io::{AsyncReadExt, AsyncWriteExt};
+    let mut buf = vec![0u8; 8192];
+    if read_first {
+        let _ = tokio::time::timeout(Duration::from_millis(150), substream.read(&mut buf)).await;
+    }
+    for c in chunks {
+        if tokio::time::timeout(Duration::from_millis(500), substream.write_all(&c)).await.map(|r| r.is_err()).unwrap_or(true) {
+            return;
+        }
+        let _ = tokio::time::timeout(Duration::from_millis(200), substream.flush()).await;
+        if gap_ms > 0 {
+            tokio::time::sleep(Duration::from_millis(gap_ms as u64)).await;
+        }
+    }
+    let until = tokio::time::Instant::now() + Duration::from_millis(hold_ms as u64);
+    loop {
+        match tokio::time::timeout_at(until, substream.read(&mut buf)).await {
+            Ok(Ok(n)) if n > 0 => continue,
+            _ => break,
+        }
+    }
 }
 
 #[async_trait::async_trait]
@@ -210,6 +248,8 @@ impl litep2p::protocol::UserProtocol for Probe {
     async fn run(mut self: Box<Self>, mut service: litep2p::protocol::TransportService) -> litep2p::Result<()> {
         use litep2p::protocol::TransportEvent;
         let mut held: Vec<litep2p::substream::Substream> = Vec::new();
+        let mut raw_plans: std::collections::HashMap<usize, (Vec<Vec<u8>>, u16, u16)> = std::collections::HashMap::new();
+        let mut reply: Option<RawReply> = None;
         loop {
             tokio::select! {
                 ev = service.next() => {
@@ -219,7 +259,14 @@ impl litep2p::protocol::UserProtocol for Probe {
                         TransportEvent::ConnectionClosed { peer } => ObsKind::ProbeClosed { probe: self.probe, peer },
                         TransportEvent::DialFailure { peer, .. } => ObsKind::ProbeDialFailure { probe: self.probe, peer },
                         TransportEvent::SubstreamOpened { peer, substream, direction, .. } => {
-                            held.push(substream);
+                            let plan = match direction {
+                                litep2p::protocol::Direction::Outbound(id) => raw_plans.remove(&id.verif_raw()).map(|(c, g, h)| (false, c, g, h)),
+                                litep2p::protocol::Direction::Inbound => reply.clone().map(|r| (r.read_first, r.chunks, 0, r.hold_ms)),
+                            };
+                            match plan {
+                                Some((read_first, chunks, gap, hold)) => { tokio::spawn(raw_session(substream, read_first, chunks, gap, hold)); }
+                                None => held.push(substream),
+                            }
                             ObsKind::ProbeSubstream { probe: self.probe, peer, inbound: matches!(direction, litep2p::protocol::Direction::Inbound), id: match direction { litep2p::protocol::Direction::Outbound(id) => Some(id.verif_raw()), _ => None } }
                         }
                         TransportEvent::SubstreamOpenFailure { substream, .. } => ObsKind::ProbeOpenFailure { probe: self.probe, id: substream.verif_raw() },
@@ -237,6 +284,14 @@ impl litep2p::protocol::UserProtocol for Probe {
                             push(&self.log, self.node, ObsKind::ProbeOpenCalled { probe: self.probe, peer, id: r.as_ref().ok().map(|i| i.verif_raw()), err: r.as_ref().err().map(|e| format!("{e:?}")) });
                         }
                         Some(ProbeCmd::DropHeld) => held.clear(),
+                        Some(ProbeCmd::RawOpen { peer, chunks, gap_ms, hold_ms }) => {
+                            let r = service.open_substream(peer);
+                            if let Ok(id) = &r {
+                                raw_plans.insert(id.verif_raw(), (chunks, gap_ms, hold_ms));
+                            }
+                            push(&self.log, self.node, ObsKind::ProbeOpenCalled { probe: self.probe, peer, id: r.as_ref().ok().map(|i| i.verif_raw()), err: r.as_ref().err().map(|e| format!("{e:?}")) });
+                        }
+                        Some(ProbeCmd::SetReply(r)) => reply = r,
                         Some(ProbeCmd::ForceClose(peer)) => {
                             let r = service.force_close(peer);
                             push(&self.log, self.node, ObsKind::ApiResult { what: format!("probe{} force_close {peer}", self.probe), ok: r.is_ok(), detail: String::new() });
@@ -267,7 +322,8 @@ pub fn rr_request(nonce: u64, behaviour: u8, arg: u16, resp_len: u32, total_len:
 
 pub fn rr_expected_response(request: &[u8]) -> Vec<u8> {
     let nonce = u64::from_le_bytes(request[0..8].try_into().unwrap());
-    let len = u32::from_le_bytes(request[11..15].try_into().unwrap()) as usize;
+    // requests written by a rogue peer carry arbitrary bytes here: the responder of the harness never builds more than 4 MiB
+    let len = (u32::from_le_bytes(request[11..15].try_into().unwrap()) as usize).min(4 << 20);
     let mut r = crate::engine::fill_bytes(nonce ^ 0x5e5e, len);
     for (i, b) in nonce.to_le_bytes().iter().enumerate() {
         if i < r.len() {
@@ -421,6 +477,24 @@ async fn node_main(
         builder = builder.with_libp2p_ping(cfg);
         // the ping protocol awaits its event channel: keep it drained
         tokio::spawn(async move { while events.next().await.is_some() {} });
+    }
+    if setup.bitswap {
+        use litep2p::protocol::libp2p::bitswap::{BitswapEvent, BlockPresenceType, Config as BsConfig, ResponseType};
+        let (cfg, mut handle) = BsConfig::new();
+        builder = builder.with_libp2p_bitswap(cfg);
+        // every request is answered: a block for CIDs hashing b"vh", don't-have for the rest
+        tokio::spawn(async move {
+            while let Some(ev) = handle.next().await {
+                if let BitswapEvent::Request { peer, cids } = ev {
+                    let have = crate::props::c20_cid(b"vh");
+                    let responses = cids
+                        .into_iter()
+                        .map(|(cid, _)| if cid == have { ResponseType::Block { cid, block: b"vh".to_vec() } } else { ResponseType::Presence { cid, presence: BlockPresenceType::DontHave } })
+                        .collect();
+                    handle.send_response(peer, responses).await;
+                }
+            }
+        });
     }
     if setup.identify {
         let (cfg, mut events) = litep2p::protocol::libp2p::identify::Config::new("/vh/1".to_string(), Some("vh".to_string()));
